@@ -322,6 +322,14 @@ fn build_scheme(fields: &FieldList) -> Scheme {
             b.add_field(n, t.to_type()).unwrap();
         }
     }
+    if !fields.is_empty() && chance(1, 4, "builder.refused") {
+        // a refused registration (the C API just returns false and the caller carries on) leaves no trace
+        let (n, t, _) = &fields[choose(fields.len(), "builder.refused_which")];
+        let other = if *t == MType::Int { MType::Bytes } else { MType::Int };
+        let refused = if chance(1, 2, "builder.refused_kind") { b.add_field(n, other.to_type()) } else { b.add_optional_field(n, other.to_type()) };
+        assert!(refused.is_err(), "a second registration of {n:?} was accepted");
+        kernel::count("builder.refused");
+    }
     b.build()
 }
 
